@@ -1432,7 +1432,14 @@ class ComputeGraph(MultiDiGraph):
             if type(n) is ComputeVar:
                 node_names.append(node)
             else:
-                node_names.append(list(self._get_inputs(node))[-1])
+                # the variable that an indexed left-hand side writes to is the first argument of the index call (the
+                # inputs of the node are not in argument order: the last one may be the index constant)
+                target = n.expr.args[0] if n.expr.args else None
+                if isinstance(target, Symbol) and target.name in self.nodes and \
+                        isinstance(self.get_var(target.name), ComputeVar):
+                    node_names.append(target.name)
+                else:
+                    node_names.append(list(self._get_inputs(node))[-1])
             node_keys.append(node)
 
         keys, values, defined_vars, undefined_vars = [], [], [], []
